@@ -46,7 +46,9 @@ func VHC10Orders() {
 	prog := c10Progs[vh.Choose("prog", len(c10Progs))]
 	b := vh.Choose("b", 2) == 1 // concrete: the JSON text level is not modelled symbolically
 	var doc any
-	switch vh.Choose("doc", 3) {
+	switch vh.Choose("doc", 4) {
+	case 3: // keys that are numerically equal or number-like: an order must still be total
+		doc = map[string]any{"1": b, "1.0": 2.0, "07": "x", "7": 3.0, "nan": 1.0, "-0": 0.0, "0": 5.0}
 	case 0:
 		doc = map[string]any{"b": b, "a": 2.0}
 	case 1:
